@@ -59,7 +59,7 @@ class Chain:
             self.cfg = setup_config("infretis.toml")
         finally:
             os.chdir(old)
-        self.md_items = {"mc_moves": self.mv, "interfaces": self.cfg["simulation"]["interfaces"], "cap": cap}
+        self.md_items = None  # built from the state exactly as setup_internal does (mc_moves, interfaces, cap)
 
     def close(self):
         scratch.rmtree(os.path.dirname(self.wd))
@@ -102,6 +102,8 @@ class Chain:
         st.load_paths(paths)
         st.engine_occ = {"engine": [-1]}
         st.pstore = l1.StubStore()
+        # what setup_internal hands to every job
+        self.md_items = {"mc_moves": st.mc_moves, "interfaces": st.interfaces, "cap": st.cap}
         return st
 
     def expand(self, s):
@@ -191,7 +193,14 @@ def _expand_job(args):
     ch = _CHAIN.get(key)
     if ch is None:
         ch = _CHAIN[key] = Chain(*key)
-    return s, ch.expand(s)
+    try:
+        return s, ch.expand(s)
+    except Exception as e:  # noqa: BLE001 - the real code raised while taking a step: a verdict, not a harness error
+        import traceback
+
+        tb = traceback.extract_tb(e.__traceback__)
+        where = next((f"{os.path.basename(fr.filename)}:{fr.name}" for fr in reversed(tb) if "/infretis/" in fr.filename), "?")
+        return s, ("error", f"{type(e).__name__} in {where} while stepping from joint state {s}: {e}")
 
 
 def solve(key, procs):
@@ -211,7 +220,10 @@ def solve(key, procs):
         while frontier:
             res = pool.map(_expand_job, [(key, s) for s in frontier], chunksize=2)
             nxt = []
-            for s, (out, tr, npick) in res:
+            for s, r_ in res:
+                if r_[0] == "error":
+                    return dict(error=r_[1])
+                out, tr, npick = r_
                 rows[s] = out
                 terms[s] = tr
                 n_steps += sum(1 for _ in out)
@@ -270,6 +282,7 @@ def configs(quick):
         out.append(("drift", ("sh", "wf", "sh"), 10, 1.5, 1))
     else:
         out.append(("sym", ("sh", "sh", "sh"), 8, None, 1))
+        out.append(("drift", ("sh", "wf", "sh"), 8, 1.5, 1))
     return out
 
 
@@ -278,7 +291,7 @@ def judge(key, r):
     dyn = mkdyn(dynname, 3)
     bad = []
     if "error" in r:
-        return [("chain:probabilities", r["error"])], {}
+        return [("chain:step-raised", f"{key}: {r['error']}")], {}
     if not r["irreducible"]:
         bad.append(("chain:not-irreducible", f"{key}: the chain of {r['states']} states is not strongly connected"))
     exact = lp.crossing_probabilities(dyn, M)
